@@ -1428,4 +1428,140 @@ theorem run_append (cfg : Cfg) (n : Node) (a b : List Op) : run cfg n (a ++ b) =
   | nil => rfl
   | cons op rest ih => exact ih _
 
+/-! ### the factory reset -/
+
+theorem delFabricKeys_keep (hi : Nat) : ∀ (fuel i : Nat) (cur : KV) (acc : List KV),
+    (delFabricKeys hi i fuel cur acc).1.nets = cur.nets ∧ (delFabricKeys hi i fuel cur acc).1.resum = cur.resum := by
+  intro fuel
+  induction fuel with
+  | zero => intro i cur acc; simp [delFabricKeys]
+  | succ fuel ih =>
+    intro i cur acc
+    simp only [delFabricKeys]
+    split
+    · exact ⟨rfl, rfl⟩
+    · split
+      · have := ih (i + 1) (cur.delFabric i) (cur.delFabric i :: acc)
+        exact ⟨this.1, this.2⟩
+      · exact ih (i + 1) cur acc
+
+/-- what a factory reset leaves in memory - whether a store call fails or not: no fabric, no session
+of a fabric, no resumption record (repo fix of `C07-factory-reset-keeps-sessions`) -/
+theorem factoryReset_mem (n : Node) :
+    (factoryReset n).1.fabrics = [] ∧
+    (factoryReset n).1.sessions = n.sessions.filter (fun s => s.mode.fab = 0) ∧
+    (factoryReset n).1.resum = [] ∧ (factoryReset n).1.resumStale = false ∧
+    (factoryReset n).1.kv.resum = .absent ∧ (factoryReset n).1.kv.nets = none ∧
+    (factoryReset n).1.nets = [] ∧ (factoryReset n).1.fs = n.fs := by
+  unfold factoryReset
+  have hk := delFabricKeys_keep (if n.failIn ≠ 0 then n.failIn else 256) 256 1 n.kv n.hist
+  rcases hd : delFabricKeys (if n.failIn ≠ 0 then n.failIn else 256) 1 256 n.kv n.hist with ⟨kv1, hist1⟩
+  rw [hd] at hk
+  simp only at hk
+  simp only [kvCommit]
+  refine ⟨?_, ?_, ?_, ?_, ?_, ?_, ?_, ?_⟩
+  all_goals (repeat' split) <;> simp_all
+
+theorem delFabricKeys_spec (hi : Nat) : ∀ (fuel i : Nat) (cur : KV) (acc : List KV),
+    (delFabricKeys hi i fuel cur acc).1.fabs = cur.fabs.filter (fun f => !(decide (i ≤ f.idx) && decide (f.idx < min hi (i + fuel)))) ∧
+    (delFabricKeys hi i fuel cur acc).1.nets = cur.nets ∧ (delFabricKeys hi i fuel cur acc).1.resum = cur.resum := by
+  intro fuel
+  induction fuel with
+  | zero =>
+    intro i cur acc
+    refine ⟨?_, by simp [delFabricKeys], by simp [delFabricKeys]⟩
+    simp only [delFabricKeys]
+    rw [eq_comm, List.filter_eq_self]
+    intro f _
+    simp; omega
+  | succ fuel ih =>
+    intro i cur acc
+    by_cases hge : i ≥ hi
+    · refine ⟨?_, by simp [delFabricKeys, hge], by simp [delFabricKeys, hge]⟩
+      simp only [delFabricKeys, hge, if_true]
+      rw [eq_comm, List.filter_eq_self]
+      intro f _
+      simp; omega
+    · by_cases hk : cur.hasFabric i = true
+      · have ⟨h1, h2, h3⟩ := ih (i + 1) (cur.delFabric i) (cur.delFabric i :: acc)
+        have heq : delFabricKeys hi i (fuel + 1) cur acc =
+            delFabricKeys hi (i + 1) fuel (cur.delFabric i) (cur.delFabric i :: acc) := by
+          simp [delFabricKeys, hge, hk]
+        rw [heq]
+        refine ⟨?_, by rw [h2]; rfl, by rw [h3]; rfl⟩
+        rw [h1]
+        simp only [KV.delFabric, List.filter_filter]
+        apply List.filter_congr
+        intro f _
+        by_cases hfi : f.idx = i
+        · have : ¬ (i ≥ hi) := hge
+          simp [hfi]; omega
+        · rw [Bool.eq_iff_iff]
+          simp [hfi]
+          constructor <;> intro h <;> omega
+      · have ⟨h1, h2, h3⟩ := ih (i + 1) cur acc
+        have heq : delFabricKeys hi i (fuel + 1) cur acc = delFabricKeys hi (i + 1) fuel cur acc := by
+          simp [delFabricKeys, hge, hk]
+        rw [heq]
+        refine ⟨?_, h2, h3⟩
+        rw [h1]
+        apply List.filter_congr
+        intro f hf
+        have hne : f.idx ≠ i := by
+          intro he
+          apply hk
+          unfold KV.hasFabric
+          rw [List.any_eq_true]
+          exact ⟨f, hf, by simpa using he⟩
+        rw [Bool.eq_iff_iff]
+        simp
+        constructor <;> intro h <;> omega
+
+/-- the fabric keys a factory reset without a store fault leaves: none, when every stored index is
+in the key range `1..255` that `Fabrics::reset_persist` walks (fabric indices are `u8` in the code) -/
+theorem factoryReset_store (n : Node) (hf : n.failIn = 0)
+    (hrange : ∀ f ∈ n.kv.fabs, 1 ≤ f.idx ∧ f.idx ≤ 255) :
+    (factoryReset n).1.kv.fabs = [] ∧ (factoryReset n).2 = .ok := by
+  have hempty : (delFabricKeys 256 1 256 n.kv n.hist).1.fabs = [] := by
+    rw [(delFabricKeys_spec 256 256 1 n.kv n.hist).1, List.filter_eq_nil_iff]
+    intro f hfm
+    have := hrange f hfm
+    simp; omega
+  unfold factoryReset
+  simp only [hf, ne_eq, not_true_eq_false, if_false]
+  rcases hd : delFabricKeys 256 1 256 n.kv n.hist with ⟨kv1, hist1⟩
+  rw [hd] at hempty
+  simp only at hempty
+  simp only [kvCommit]
+  refine ⟨?_, trivial⟩
+  (repeat' split) <;> simp_all
+
+/-- a factory reset issued in state `n` is *clean*: no store fault is pending, and every stored fabric
+index is in the key range `1..255` that `Fabrics::reset_persist` walks (a `u8` in the code; the model
+hands out indices in `1..254` only, but the range is not carried as an invariant) -/
+def ResetClean (n : Node) : Prop := n.failIn = 0 ∧ ∀ f ∈ n.kv.fabs, 1 ≤ f.idx ∧ f.idx ≤ 255
+
+instance (n : Node) : Decidable (ResetClean n) := by unfold ResetClean; infer_instance
+
+/-- every factory reset of the history is clean (decidable on histories) -/
+def ResetsClean (cfg : Cfg) : Node → List Op → Prop
+  | _, [] => True
+  | n, op :: rest => (op = .freset → ResetClean n) ∧ ResetsClean cfg (step cfg n op).1 rest
+
+instance decResetsClean (cfg : Cfg) : (n : Node) → (ops : List Op) → Decidable (ResetsClean cfg n ops)
+  | _, [] => by simp only [ResetsClean]; infer_instance
+  | n, op :: rest =>
+    have := decResetsClean cfg (step cfg n op).1 rest
+    by simp only [ResetsClean]; infer_instance
+
+/-- a history without factory reset is one -/
+theorem resetsClean_of_none (cfg : Cfg) : ∀ (ops : List Op) (n : Node), Op.freset ∉ ops → ResetsClean cfg n ops := by
+  intro ops
+  induction ops with
+  | nil => intro _ _; trivial
+  | cons op rest ih =>
+    intro n hno
+    exact ⟨fun he => absurd (by rw [he]; exact List.mem_cons_self) hno,
+      ih _ (fun hm => hno (List.mem_cons_of_mem _ hm))⟩
+
 end Admin
